@@ -48,6 +48,14 @@ def mk_sparse(utils, A):
     W, X, Y, Z = [np.array(c, dtype=float).reshape(len(A), len(A[0])) for c in qx.comps(A)]
     return utils.SparseQuaternionMatrix(sparse.csr_matrix(W), sparse.csr_matrix(X), sparse.csr_matrix(Y),
                                         sparse.csr_matrix(Z), W.shape)
+def mk_sparse_arrays(utils, A, fmt='csr'):
+    """the same matrix with its four component planes stored as scipy sparse ARRAYS (csr_array / coo_array): for these
+    containers `*` is the element-wise product, unlike the legacy sparse matrices"""
+    from scipy import sparse
+    import numpy as np
+    mk = {'csr': sparse.csr_array, 'coo': sparse.coo_array, 'csc': sparse.csc_array}[fmt]
+    W, X, Y, Z = [np.array(c, dtype=float).reshape(len(A), len(A[0])) for c in qx.comps(A)]
+    return utils.SparseQuaternionMatrix(mk(W), mk(X), mk(Y), mk(Z), W.shape)
 def sparse_to_exact(S):
     import numpy as np
     arrs = [np.asarray(c.toarray(), dtype=float) for c in (S.real, S.i, S.j, S.k)]
@@ -67,6 +75,14 @@ def impl_products(utils, A, B, exact_in=True):
             kinds[p] = 'sparse'; out[p] = sparse_to_exact(r)
         else:
             kinds[p] = 'dense'; out[p] = qx.from_np(r)
+    if hasattr(sparse, 'csr_array'):
+        for fmt in ('csr', 'coo'):
+            Aa, Ba = mk_sparse_arrays(utils, A, fmt), mk_sparse_arrays(utils, B, fmt)
+            for p, (a, b) in ((f'ss[{fmt}_array]', (Aa, Ba)), (f'sd[{fmt}_array]', (Aa, Bn)), (f'ds[{fmt}_array]', (An, Ba)), (f's[{fmt}_array]s[csr_matrix]', (Aa, Bs))):
+                try: r = utils.quat_matmat(a, b)
+                except Exception as e: out[p] = 'raised ' + repr(e)[:80]; kinds[p] = 'raised'; continue
+                if isinstance(r, utils.SparseQuaternionMatrix): kinds[p] = 'sparse'; out[p] = sparse_to_exact(r)
+                else: kinds[p] = 'dense'; out[p] = qx.from_np(r)
     ca = [np.array(c, dtype=float) for c in qx.comps(A)]; cb = [np.array(c, dtype=float) for c in qx.comps(B)]
     r = utils.timesQsparse(*ca, *cb)
     out['tq'] = qx.from_comps(*[qx.real_from_np(x) for x in r])
@@ -156,7 +172,10 @@ def run(ctx):
             if not qx.eq(outs[p], want):
                 viol(f'C01:product:{p}', f'path {p} differs from the Hamilton product on {cls}', A, B,
                      [[a.t() for a in r] for r in outs[p]], [[a.t() for a in r] for r in want])
-        if info and any(kinds[p] != info['dispatch'][p]['result'] for p in kinds):
+        for p in [q for q in outs if q not in PATHS]:
+            if isinstance(outs[p], str) or not qx.eq(outs[p], want):
+                viol(f'C01:product:storage:{p}', f'product with sparse-ARRAY component storage ({p}) differs from the Hamilton product on {cls}', A, B, outs[p] if isinstance(outs[p], str) else [[a.t() for a in r] for r in outs[p]], [[a.t() for a in r] for r in want])
+        if info and any(kinds[p] != info['dispatch'][p]['result'] for p in kinds if p in info['dispatch']):
             ctx.broken.append(f'storage kind of a product differs from the translated dispatch: {kinds} vs {info["dispatch"]}')
         nontriv = cls.startswith('unit') or (sum(not a.is_zero() for r in A for a in r) >= 2 and sum(not b.is_zero() for r in B for b in r) >= 2)
         ctx.count(('prod', [a.t() for r in A for a in r], [b.t() for r in B for b in r], (m, k, n)), nontriv,
